@@ -354,6 +354,21 @@ func dischargeBounds(c *Ctx, fn *ssa.Function, in ssa.Instruction) (string, stri
 		}
 		return false
 	}
+	// G13: x[i] where i is the index of a range loop over that same list value and the access lies inside the loop (the
+	// compiler proves this itself unless the list is reached through a pointer in the source — `(*p)[i]` in
+	// `for i := range *p` — which the normaliser has resolved to the variable)
+	if idx != nil && lo == nil && hi == nil {
+		if in2, ok := in.(ssa.Instruction); ok {
+			for _, l := range model.SliceRangeLoops(fn) {
+				if l.Over != base || !l.Blocks[in2.Block()] {
+					continue
+				}
+				if idx == ssa.Value(l.Index) || idx == loopIndexInc(l) {
+					return "G13 (index of the range loop over this very list, used inside the loop)", ""
+				}
+			}
+		}
+	}
 	// G10: q[1:len(q)-1] where q is the result of strconv.Quote / QuoteToASCII (possibly lower-cased): a quoted string
 	// is ASCII-only for QuoteToASCII and always has its two quote marks, so len(q) ≥ 2
 	if hi != nil && lo != nil {
